@@ -10,7 +10,7 @@ from engine.dataflow import ReachingDefs, target_names, assigned_value
 from engine.srcmodel import walk_shallow, norm, parent, set_parents
 from engine.util import call_name, contains, get_method, in_body, fstring_template
 from ._c01_util import (bound_by_inner_scope, loads, load_ids, strip_wrappers, bounded_paths, branch_outcome,
-                        membership_facts, read_reserved, literal_pieces)
+                        membership_facts, read_reserved, literal_pieces, alias_root, list_shapes, LVal, Scalar, Delegate)
 
 PROPERTY = "C01"
 IR = "pyrates/ir/circuit.py"
@@ -319,39 +319,111 @@ def r2_accumulate_on_scatter(ctx, rid):
 # R3 grouping key determines scalar-consumed fields
 # ================================================================================================
 
+DICT_CTORS = ("dict", "defaultdict", "OrderedDict")
+
+
+def _is_dict_ctor(e: ast.AST) -> bool:
+    return isinstance(e, ast.Dict) or (isinstance(e, ast.Call) and call_name(e) in DICT_CTORS)
+
+
 def _producer_model(ctx, f, rid):
-    """Recognise the grouping idiom of _collect_from_edges: `for K, .. in records: R = table[..]; if K not in D: D[K] = {};
-    for F in fields: ... D[K][F] ...`; returns dict(D, K, loop, R, fields_param, create_stmt, merge_try)."""
-    rets = [n for n in walk_shallow(f.node) if isinstance(n, ast.Return) and isinstance(n.value, ast.Name)]
+    """Recognise the record-grouping of _collect_from_edges by role: a dict D is returned; inside a loop over the records a
+    group D[K] is created when absent (`if K not in D: D[K] = {}`, `D.setdefault(K, {})`, `D = defaultdict(dict)`); the fields
+    F of a loop over a field-name parameter are merged into the group (`D[K][F]`, or through a single-definition alias
+    `G = D[K]` / `G = D.setdefault(K, {})`, or by handing group and field name to a private helper).
+    Returns dict(D, key, loop, field_loop, fields_param, create, tries, regions)."""
+    rets = [n for n in walk_shallow(f.node) if isinstance(n, ast.Return) and n.value is not None]
     if len(rets) != 1:
         raise AnalysisError(f"{rid}: {f.qual}: expected a single `return <dict>`")
-    D = rets[0].value.id
-    create = None
+    root = alias_root(ctx, f, rets[0].value, wrappers=("dict",))
+    if not isinstance(root.expr, ast.Name):
+        raise AnalysisError(f"{rid}: {f.qual}: expected a single `return <dict>`")
+    names_of_D = set(root.names)
+    rd = ctx.rd(f)
+
+    def is_D(e) -> bool:
+        return isinstance(e, ast.Name) and e.id in names_of_D
+
+    def group_key(e, depth=0) -> Optional[ast.AST]:
+        """K when `e` denotes the group of key K: D[K], D.setdefault(K, ..), D.get(K), or an alias of one of these."""
+        if isinstance(e, ast.Subscript) and is_D(e.value):
+            return e.slice
+        if isinstance(e, ast.Call) and isinstance(e.func, ast.Attribute) and e.func.attr in ("setdefault", "get") \
+                and is_D(e.func.value) and e.args:
+            return e.args[0]
+        if isinstance(e, ast.Name) and isinstance(e.ctx, ast.Load) and depth < 4 and not is_D(e):
+            defs = rd.defs_reaching(e)
+            if len(defs) == 1:
+                v = assigned_value(defs[0], e.id)
+                if v is not None:
+                    return group_key(v, depth + 1)
+        return None
+
+    # ---- creation of a group
+    creates = []
     for st in walk_shallow(f.node):
         if isinstance(st, ast.Assign) and len(st.targets) == 1 and isinstance(st.targets[0], ast.Subscript) \
-                and isinstance(st.targets[0].value, ast.Name) and st.targets[0].value.id == D \
-                and ((isinstance(st.value, ast.Call) and call_name(st.value) in ("dict", "defaultdict", "OrderedDict"))
-                     or isinstance(st.value, ast.Dict)):
-            create = st
-    if create is None:
-        raise AnalysisError(f"{rid}: {f.qual}: group creation `{D}[key] = dict()` not found (unrecognised grouping form)")
-    key_expr = create.targets[0].slice
+                and is_D(st.targets[0].value) and _is_dict_ctor(st.value):
+            creates.append((st, st.targets[0].slice))
+        elif isinstance(st, ast.Call) and isinstance(st.func, ast.Attribute) and st.func.attr == "setdefault" and is_D(st.func.value) \
+                and len(st.args) == 2 and _is_dict_ctor(st.args[1]):
+            creates.append((stmt_of(ctx.cfg(f), st), st.args[0]))
+    if not creates and root.defstmt is not None:
+        v = assigned_value(root.defstmt, root.expr.id)
+        if isinstance(v, ast.Call) and call_name(v) == "defaultdict" and v.args and (
+                (isinstance(v.args[0], ast.Name) and v.args[0].id in DICT_CTORS)
+                or (isinstance(v.args[0], ast.Lambda) and _is_dict_ctor(v.args[0].body))):
+            # groups spring into existence at the first `D[K]`
+            for n in walk_shallow(f.node):
+                if isinstance(n, ast.Subscript) and is_D(n.value) and any(isinstance(a, ast.For) for a in _anc(n)):
+                    creates.append((stmt_of(ctx.cfg(f), n), n.slice))
+                    break
+    if not creates:
+        raise AnalysisError(f"{rid}: {f.qual}: group creation `{root.expr.id}[key] = dict()` not found (unrecognised grouping form)")
+    if len({ast.dump(k) for _s, k in creates}) != 1:
+        raise AnalysisError(f"{rid}: {f.qual}: groups are created under several different keys (unrecognised grouping form)")
+    create, key_expr = creates[-1]
     loop = next((a for a in _anc(create) if isinstance(a, ast.For)), None)
     if loop is None:
         raise AnalysisError(f"{rid}: {f.qual}: group creation is not inside a loop over the records")
-    # two-level stores/reads D[K][F]
+    # ---- accesses of a field of the group: <group>[F] or a call that receives the group and F
     field_loops = []
+
+    def note_field(name_node, at):
+        fl = next((a for a in _anc(at) if isinstance(a, ast.For) and name_node.id in target_names(a.target)), None)
+        if fl is not None and fl not in field_loops:
+            field_loops.append(fl)
+    helper_calls = []
     for n in walk_shallow(loop):
-        if isinstance(n, ast.Subscript) and isinstance(n.value, ast.Subscript) and isinstance(n.value.value, ast.Name) \
-                and n.value.value.id == D and ast.dump(n.value.slice) == ast.dump(key_expr) and isinstance(n.slice, ast.Name):
-            fl = next((a for a in _anc(n) if isinstance(a, ast.For) and n.slice.id in target_names(a.target)), None)
-            if fl is not None and fl not in field_loops:
-                field_loops.append(fl)
-    if len(field_loops) != 1 or not isinstance(field_loops[0].iter, ast.Name) or field_loops[0].iter.id not in f.params:
+        if isinstance(n, ast.Subscript) and isinstance(n.slice, ast.Name) and not is_D(n.value):
+            k = group_key(n.value)
+            if k is not None and ast.dump(k) == ast.dump(key_expr):
+                note_field(n.slice, n)
+        elif isinstance(n, ast.Call) and not (isinstance(n.func, ast.Attribute) and is_D(n.func.value)):
+            args = list(n.args) + [kw.value for kw in n.keywords]
+            groups = [a for a in args if (group_key(a) is not None and ast.dump(group_key(a)) == ast.dump(key_expr))]
+            if groups:
+                for a in args:
+                    if isinstance(a, ast.Name) and a not in groups:
+                        note_field(a, n)
+                helper_calls.append(n)
+    if len(field_loops) != 1:
         raise AnalysisError(f"{rid}: {f.qual}: loop over the field names (a parameter) not recognised")
     fl = field_loops[0]
-    tries = [n for n in walk_shallow(fl) if isinstance(n, ast.Try)]
-    return dict(D=D, key=key_expr, loop=loop, field_loop=fl, fields_param=fl.iter.id, create=create, tries=tries)
+    it = alias_root(ctx, f, fl.iter, wrappers=("list", "tuple"))
+    if not (isinstance(it.expr, ast.Name) and it.expr.id in f.params and it.defstmt is None):
+        raise AnalysisError(f"{rid}: {f.qual}: loop over the field names (a parameter) not recognised")
+    # ---- the code that merges one field value into the group: the field loop and private helpers that receive the group
+    regions = [fl]
+    for c in helper_calls:
+        if contains(fl, c):
+            targets, how = ctx.cg.resolve_call(f, c)
+            if how == "by-name" or not targets:
+                raise AnalysisError(f"{rid}: {f.qual}: the group is handed to `{ast.unparse(c.func)}`, which cannot be resolved")
+            regions += [t.node for t in targets if t.node not in regions]
+    tries = [n for r in regions for n in walk_shallow(r) if isinstance(n, ast.Try)]
+    return dict(D=root.expr.id, key=key_expr, loop=loop, field_loop=fl, fields_param=it.expr.id, create=create, tries=tries,
+                regions=regions, is_group=lambda e: group_key(e) is not None)
 
 
 def _anc(n):
@@ -380,29 +452,59 @@ def _key_mentions_field(ctx, f, pm, field: str) -> bool:
 
 
 def _merge_raises_on_conflict(pm, rid, f) -> Optional[ast.Raise]:
-    """A raise inside the merge code of the field loop that is conditioned on the stored value differing from the new one."""
-    for n in walk_shallow(pm["field_loop"]):
-        if isinstance(n, ast.Raise):
-            conds = [a for a in _anc(n) if isinstance(a, ast.If) and contains(pm["field_loop"], a)]
-            for c in conds:
-                if any(isinstance(x, ast.Compare) and any(isinstance(o, (ast.NotEq, ast.Eq, ast.IsNot, ast.Is)) for o in x.ops)
-                       for x in ast.walk(c.test)):
-                    return n
-            raise AnalysisError(f"{rid}: {f.qual}: a raise inside the field merge has an unrecognised condition")
+    """A raise inside the merge code (field loop, helpers that receive the group) that is conditioned on the stored value
+    differing from the new one."""
+    for region in pm["regions"]:
+        for n in walk_shallow(region):
+            if isinstance(n, ast.Raise):
+                conds = [a for a in _anc(n) if isinstance(a, ast.If) and contains(region, a)]
+                for c in conds:
+                    if any(isinstance(x, ast.Compare) and any(isinstance(o, (ast.NotEq, ast.Eq, ast.IsNot, ast.Is)) for o in x.ops)
+                           for x in ast.walk(c.test)):
+                        return n
+                if region is not pm["field_loop"] and not conds:
+                    continue        # an unconditional raise of a helper (argument validation) is not part of the merge
+                raise AnalysisError(f"{rid}: {f.qual}: a raise inside the field merge has an unrecognised condition")
     return None
 
 
+def _stores_field(st: ast.stmt) -> bool:
+    """Does the statement (or a statement nested in it) store a value into a container / extend one in place?"""
+    for n in ast.walk(st):
+        if isinstance(n, ast.Subscript) and isinstance(n.ctx, ast.Store):
+            return True
+        if isinstance(n, ast.Call) and isinstance(n.func, ast.Attribute) and n.func.attr in ("append", "extend", "update", "setdefault"):
+            return True
+    return False
+
+
+def _settles(stmts) -> bool:
+    """Every path through the statement list stores the value somewhere or raises."""
+    for st in stmts:
+        if isinstance(st, ast.Raise):
+            return True
+        if isinstance(st, ast.If):
+            if st.orelse and _settles(st.body) and _settles(st.orelse):
+                return True
+            continue
+        if isinstance(st, ast.Try):
+            if _settles(st.body) and all(_settles(h.body) for h in st.handlers):
+                return True
+            continue
+        if isinstance(st, (ast.For, ast.While, ast.With)):
+            continue
+        if _stores_field(st):
+            return True
+    return False
+
+
 def _silent_discard(pm) -> Optional[ast.AST]:
-    """The branch of the merge code that drops the second value of a non-list field (`... pass`)."""
+    """The part of the merge code that drops the second value of a non-list field: an exception handler of the merge through
+    which a path exists that neither stores the value nor raises (`if ...: pass`, an `if` without `else`, a bare `pass`)."""
     for t in pm["tries"]:
         for h in t.handlers:
-            for n in ast.walk(h):
-                if isinstance(n, ast.If) and len(n.body) == 1 and isinstance(n.body[0], ast.Pass):
-                    return n
-                if isinstance(n, ast.ExceptHandler) and len(n.body) == 1 and isinstance(n.body[0], ast.Pass) and n is not h:
-                    return n
-            if len(h.body) == 1 and isinstance(h.body[0], ast.Pass):
-                return h
+            if not _settles(h.body):
+                return next((n for n in h.body if isinstance(n, ast.If)), h)
     return None
 
 
@@ -816,13 +918,457 @@ REORDER = {"sorted", "reversed", "set", "frozenset"}
 
 def _return_pair(ctx, f, rid):
     rets = [n for n in walk_shallow(f.node) if isinstance(n, ast.Return)]
-    if len(rets) != 1 or not isinstance(rets[0].value, ast.Tuple) or len(rets[0].value.elts) != 4:
+    if len(rets) != 1 or rets[0].value is None:
         raise AnalysisError(f"{rid}: {f.qual}: expected one `return func, args, arg_names, state_indices`")
-    return rets[0], rets[0].value.elts[1], rets[0].value.elts[2]
+    tup = rets[0].value
+    if isinstance(tup, ast.Name):
+        root = alias_root(ctx, f, tup, wrappers=())
+        tup = root.value if root.value is not None else root.expr
+    if not isinstance(tup, ast.Tuple) or len(tup.elts) != 4:
+        raise AnalysisError(f"{rid}: {f.qual}: expected one `return func, args, arg_names, state_indices`")
+    return rets[0], tup.elts[1], tup.elts[2]
+
+
+def _strip_copies(e: ast.AST) -> ast.AST:
+    """tuple(x) / list(x) / iter(x) / x.copy() / x[:]  ->  x   (same entries, same order)."""
+    while True:
+        e2 = strip_wrappers(e, ("tuple", "list", "iter"))
+        if isinstance(e2, ast.Call) and isinstance(e2.func, ast.Attribute) and e2.func.attr == "copy" and not e2.args and not e2.keywords:
+            e2 = e2.func.value
+        if isinstance(e2, ast.Subscript) and isinstance(e2.slice, ast.Slice) and e2.slice.lower is None and e2.slice.upper is None \
+                and e2.slice.step is None:
+            e2 = e2.value
+        if e2 is e:
+            return e
+        e = e2
+
+
+def _copy_root(ctx, f, e: ast.AST, depth: int = 6):
+    """alias_root that also looks through order-preserving copies (`x.copy()`, `x[:]`)."""
+    names: List[str] = []
+    r = None
+    for _ in range(depth):
+        r = alias_root(ctx, f, _strip_copies(e))
+        names += [n for n in r.names if n not in names]
+        v = _strip_copies(r.value) if r.value is not None else None
+        if v is not None and v is not r.value and isinstance(v, ast.Name):
+            e = v
+            continue
+        break
+    r.names = names
+    return r
+
+
+def _reorders(e: ast.AST) -> bool:
+    return any(isinstance(c, ast.Call) and call_name(c) in REORDER for c in ast.walk(e)) or \
+        any(isinstance(s, ast.Subscript) for s in ast.walk(e))
+
+
+class _Iter:
+    """One pass over a list that contributes values: a `for` loop or a comprehension handed to extend / += / the initial value."""
+
+    def __init__(self, node, stmt, target, it, body):
+        self.node, self.stmt, self.target, self.it, self.body = node, stmt, target, it, body
+
+
+def _append_call(V: str, val: ast.AST) -> ast.stmt:
+    return ast.Expr(value=ast.Call(func=ast.Attribute(value=ast.Name(id=V, ctx=ast.Load()), attr="append", ctx=ast.Load()),
+                                   args=[val], keywords=[]))
+
+
+def _iter_of_comp(comp, stmt, V: str, rid, f) -> _Iter:
+    if len(comp.generators) != 1 or comp.generators[0].is_async:
+        raise AnalysisError(f"{rid}: {f.qual}: values are collected by a nested comprehension `{norm(comp)}` (unrecognised)")
+    g = comp.generators[0]
+    body: List[ast.stmt] = [_append_call(V, comp.elt)]
+    if g.ifs:
+        test = g.ifs[0] if len(g.ifs) == 1 else ast.BoolOp(op=ast.And(), values=list(g.ifs))
+        body = [ast.If(test=test, body=body, orelse=[])]
+    return _Iter(comp, stmt, g.target, g.iter, body)
+
+
+def _iter_of_loop(L: ast.For) -> _Iter:
+    tgt, it, body = L.target, L.iter, list(L.body)
+    if isinstance(it, ast.Call) and call_name(it) == "enumerate" and len(it.args) == 1 and isinstance(tgt, (ast.Tuple, ast.List)) \
+            and len(tgt.elts) == 2:
+        tgt, it = tgt.elts[1], it.args[0]
+    elif isinstance(it, ast.Call) and call_name(it) == "range" and len(it.args) == 1 and isinstance(it.args[0], ast.Call) \
+            and call_name(it.args[0]) == "len" and len(it.args[0].args) == 1 and isinstance(tgt, ast.Name) and body \
+            and isinstance(body[0], ast.Assign) and len(body[0].targets) == 1 and isinstance(body[0].targets[0], ast.Name) \
+            and isinstance(body[0].value, ast.Subscript) and isinstance(body[0].value.slice, ast.Name) \
+            and body[0].value.slice.id == tgt.id and ast.dump(body[0].value.value) == ast.dump(it.args[0].args[0]):
+        tgt, it, body = body[0].targets[0], it.args[0].args[0], body[1:]
+    return _Iter(L, L, tgt, it, body)
+
+
+COMPOUND = (ast.If, ast.For, ast.AsyncFor, ast.While, ast.Try, ast.With, ast.AsyncWith, ast.Match, ast.FunctionDef,
+            ast.AsyncFunctionDef, ast.ClassDef, ast.Lambda, ast.ExceptHandler)
+
+
+def _value_segments(ctx, f, rid, v_e):
+    """How the returned value list is put together, in execution order:
+    [('seed', (value, condition, stmt)) | ('iter', _Iter)], the local names of the list, the initialising statement.
+    Raises AnalysisError for every construction other than: one initial list expression, then append / extend / += on the
+    spine of the function (at most under one `if`), and loops on the spine whose body appends."""
+    cfg, rd = ctx.cfg(f), ctx.rd(f)
+    segs: List[tuple] = []          # (position, kind, payload)
+    names: Set[str] = set()
+    e = _strip_copies(v_e)
+    init = vinit = None
+    augs: List[ast.stmt] = []
+    V = "⟨values⟩"
+    for _ in range(6):
+        if not isinstance(e, ast.Name):
+            init = e
+            break
+        V = e.id
+        names.add(V)
+        # definitions that reach the use, looking through `V += [...]` (which extends the same list)
+        plain, work, seen = [], list(rd.defs_reaching(e)), set()
+        augs = []
+        while work:
+            d = work.pop()
+            if id(d) in seen:
+                continue
+            seen.add(id(d))
+            if isinstance(d, ast.AugAssign) and isinstance(d.target, ast.Name) and d.target.id == V:
+                augs.append(d)
+                work += rd.defs_reaching_at(d, V)
+            else:
+                plain.append(d)
+        v = assigned_value(plain[0], V) if len(plain) == 1 and not isinstance(plain[0], ast.arguments) else None
+        if v is None:
+            raise AnalysisError(f"{rid}: {f.qual}: the value list `{V}` is not initialised by one list literal")
+        v2 = _strip_copies(v)
+        if isinstance(v2, ast.Name) and not augs:
+            e = v2
+            continue
+        init, vinit = v, plain[0]
+        break
+    if init is None:
+        raise AnalysisError(f"{rid}: {f.qual}: the value list `{V}` is not initialised by one list literal")
+
+    def parse(e, cond, pos, st):
+        e = strip_wrappers(e)
+        if isinstance(e, (ast.List, ast.Tuple)) and not any(isinstance(x, ast.Starred) for x in e.elts):
+            for x in e.elts:
+                segs.append((pos, "seed", (x, cond, st)))
+        elif isinstance(e, (ast.ListComp, ast.GeneratorExp)) and cond is None:
+            segs.append((pos, "iter", _iter_of_comp(e, st if st is not None else stmt_of(cfg, e), V, rid, f)))
+        elif isinstance(e, ast.BinOp) and isinstance(e.op, ast.Add):
+            parse(e.left, cond, pos, st)
+            parse(e.right, cond, pos, st)
+        elif isinstance(e, ast.IfExp) and cond is None and isinstance(strip_wrappers(e.orelse), (ast.List, ast.Tuple)) \
+                and not strip_wrappers(e.orelse).elts:
+            parse(e.body, e.test, pos, st)
+        elif isinstance(e, ast.IfExp) and cond is None and isinstance(strip_wrappers(e.body), (ast.List, ast.Tuple)) \
+                and not strip_wrappers(e.body).elts:
+            parse(e.orelse, ast.UnaryOp(op=ast.Not(), operand=e.test), pos, st)
+        else:
+            raise AnalysisError(f"{rid}: {f.qual}: the value list `{V}` is not initialised by one list literal (`{norm(e)}`)")
+    parse(init, None, (getattr(vinit, "lineno", 0), getattr(vinit, "col_offset", 0)), vinit)
+    if vinit is None:
+        return [(k, p) for _pos, k, p in segs], [], None
+
+    def is_V(e) -> bool:
+        if not (isinstance(e, ast.Name) and e.id in names):
+            return False
+        defs = rd.defs_reaching(e) if isinstance(e.ctx, ast.Load) else rd.defs_reaching_at(stmt_of(cfg, e), e.id)
+        return bool(defs) and all(d is vinit or d in augs or (isinstance(assigned_value(d, e.id), ast.Name)
+                                                               and assigned_value(d, e.id).id in names) for d in defs)
+
+    def place(node):
+        """(statement, condition, loop on the spine) of a modification of the value list."""
+        st = stmt_of(cfg, node)
+        chain = []
+        child = node
+        for a in _anc(node):
+            if a is f.node:
+                break
+            if isinstance(a, COMPOUND):
+                chain.append((a, child))
+            child = a
+        chain.reverse()                 # outermost first
+        if not chain:
+            return st, None, None
+        outer, below = chain[0]
+        if isinstance(outer, (ast.For, ast.AsyncFor)) and any(contains(b, below) for b in outer.body):
+            return st, None, outer
+        if isinstance(outer, ast.If) and len(chain) == 1:
+            if any(contains(b, below) or b is below for b in outer.body):
+                return st, outer.test, None
+            if any(contains(b, below) or b is below for b in outer.orelse):
+                return st, ast.UnaryOp(op=ast.Not(), operand=outer.test), None
+        raise AnalysisError(f"{rid}: {f.qual}: `{norm(st)}` modifies the value list inside `{norm(outer)}` (unrecognised)")
+    loops: List[ast.AST] = []
+    for n in walk_shallow(f.node):
+        kind = arg = None
+        if isinstance(n, ast.Call) and isinstance(n.func, ast.Attribute) and is_V(n.func.value):
+            if n.func.attr in ("copy", "index", "count"):
+                continue
+            if n.func.attr not in ("append", "extend") or len(n.args) != 1 or n.keywords:
+                raise AnalysisError(f"{rid}: {f.qual}: value list `{V}` is modified by `{ast.unparse(n)}` (unrecognised)")
+            kind, arg = n.func.attr, n.args[0]
+        elif isinstance(n, ast.AugAssign) and isinstance(n.target, ast.Name) and (n in augs or is_V(n.target)):
+            if not isinstance(n.op, ast.Add):
+                raise AnalysisError(f"{rid}: {f.qual}: value list `{V}` is modified by `{norm(n)}` (unrecognised)")
+            kind, arg = "extend", n.value
+        elif isinstance(n, ast.Subscript) and isinstance(n.ctx, (ast.Store, ast.Del)) and is_V(n.value):
+            raise AnalysisError(f"{rid}: {f.qual}: value list `{V}` is modified by `{norm(stmt_of(cfg, n))}` (unrecognised)")
+        if kind is None:
+            continue
+        st, cond, loop = place(n)
+        if loop is not None:
+            if loop not in loops:
+                loops.append(loop)
+                segs.append(((loop.lineno, loop.col_offset), "iter", _iter_of_loop(loop)))
+            continue
+        pos = (st.lineno, st.col_offset)
+        if kind == "append":
+            segs.append((pos, "seed", (arg, cond, st)))
+        else:
+            parse(arg, cond, pos, st)
+    segs.sort(key=lambda s: s[0])
+    return [(k, p) for _pos, k, p in segs], [V] + sorted(names - {V}), vinit
+
+
+def _elem_key(ctx, f, e: ast.AST) -> str:
+    if isinstance(e, ast.Constant):
+        return repr(e.value)
+    if isinstance(e, ast.Name) and isinstance(e.ctx, ast.Load):
+        try:
+            r = alias_root(ctx, f, e, wrappers=())
+        except Exception:
+            return e.id
+        if r.value is not None and isinstance(r.value, ast.Constant):
+            return repr(r.value.value)
+        return r.expr.id if isinstance(r.expr, ast.Name) else ast.unparse(r.expr)
+    return ast.unparse(e)
+
+
+def _name_test(ctx, f, test: ast.AST, a: str):
+    """Classify a test on the iteration's name `a`: ('in', {keys}) — true iff a is one of these names; ('notin', {keys});
+    'unknown' — reads `a` in another way; None — does not read `a`."""
+    def is_a(e):
+        return isinstance(e, ast.Name) and e.id == a
+
+    def coll(e) -> Optional[List[ast.AST]]:
+        e = strip_wrappers(e, ("tuple", "list", "set", "frozenset"))
+        if isinstance(e, (ast.Tuple, ast.List, ast.Set)) and not any(isinstance(x, ast.Starred) for x in e.elts):
+            return list(e.elts)
+        if isinstance(e, ast.Name) and e.id != a:
+            try:
+                r = alias_root(ctx, f, e, wrappers=("tuple", "list", "set", "frozenset"))
+            except Exception:
+                return None
+            v = strip_wrappers(r.value, ("tuple", "list", "set", "frozenset")) if r.value is not None else None
+            if isinstance(v, (ast.Tuple, ast.List, ast.Set)) and not any(isinstance(x, ast.Starred) for x in v.elts):
+                return list(v.elts)
+        return None
+    if isinstance(test, ast.UnaryOp) and isinstance(test.op, ast.Not):
+        r = _name_test(ctx, f, test.operand, a)
+        if isinstance(r, tuple):
+            return ("notin" if r[0] == "in" else "in", r[1])
+        return r
+    if isinstance(test, ast.Compare) and len(test.ops) == 1:
+        l, op, r = test.left, test.ops[0], test.comparators[0]
+        if isinstance(op, (ast.Eq, ast.NotEq)):
+            other = r if is_a(l) else (l if is_a(r) else None)
+            if other is not None and a not in load_ids(other):
+                return ("in" if isinstance(op, ast.Eq) else "notin", {_elem_key(ctx, f, other)})
+        if isinstance(op, (ast.In, ast.NotIn)) and is_a(l):
+            c = coll(r)
+            if c is not None and all(a not in load_ids(x) for x in c):
+                return ("in" if isinstance(op, ast.In) else "notin", {_elem_key(ctx, f, x) for x in c})
+    if isinstance(test, ast.BoolOp):
+        parts = [_name_test(ctx, f, v, a) for v in test.values]
+        if all(isinstance(p, tuple) for p in parts):
+            want = "in" if isinstance(test.op, ast.Or) else "notin"
+            if all(p[0] == want for p in parts):
+                return (want, set().union(*[p[1] for p in parts]))
+    return "unknown" if a in load_ids(test) else None
+
+
+class _IterState:
+    __slots__ = ("pos", "neg", "count", "values", "rebound", "done")
+
+    def __init__(self, pos=None, neg=frozenset(), count=0, values=(), rebound=False, done=False):
+        self.pos, self.neg, self.count, self.values, self.rebound, self.done = pos, neg, count, values, rebound, done
+
+    def clone(self, **kw):
+        s = _IterState(self.pos, self.neg, self.count, self.values, self.rebound, self.done)
+        for k, v in kw.items():
+            setattr(s, k, v)
+        return s
+
+    def constrain(self, kind: str, keys) -> Optional["_IterState"]:
+        keys = frozenset(keys)
+        if kind == "in":
+            pos = (keys if self.pos is None else self.pos & keys) - self.neg
+            return self.clone(pos=pos) if pos else None
+        neg = self.neg | keys
+        pos = None if self.pos is None else self.pos - keys
+        if pos is not None and not pos:
+            return None
+        return self.clone(pos=pos, neg=neg)
+
+
+def _iteration_outcomes(ctx, f, rid, it: _Iter, a: str, vnames, problems: List[str]) -> List[_IterState]:
+    """All paths through one iteration of the value-collecting pass, with the constraints they put on the iteration's name."""
+    vnames = set(vnames)
+
+    def v_call(c):
+        return isinstance(c, ast.Call) and isinstance(c.func, ast.Attribute) and isinstance(c.func.value, ast.Name) \
+            and c.func.value.id in vnames
+
+    def touches(st) -> bool:
+        return any(v_call(c) or (isinstance(c, ast.AugAssign) and isinstance(c.target, ast.Name) and c.target.id in vnames)
+                   for c in ast.walk(st))
+
+    def implied(test, outcome: bool) -> List[List[tuple]]:
+        """The ways in which `test` can evaluate to `outcome`, each as a list of constraints on the iteration's name
+        (`A and B` is false when A is false, or when A is true and B is false)."""
+        t = _name_test(ctx, f, test, a)
+        if isinstance(t, tuple):
+            return [[(t[0] if outcome else ("notin" if t[0] == "in" else "in"), t[1])]]
+        if isinstance(test, ast.UnaryOp) and isinstance(test.op, ast.Not):
+            return implied(test.operand, not outcome)
+        if isinstance(test, ast.BoolOp) and len(test.values) <= 4:
+            all_of = isinstance(test.op, ast.And) == outcome      # every operand evaluates to `outcome`
+            if all_of:
+                alts: List[List[tuple]] = [[]]
+                for v in test.values:
+                    alts = [x + y for x in alts for y in implied(v, outcome)]
+                return alts
+            alts, before = [], [[]]
+            for v in test.values:
+                alts += [x + y for x in before for y in implied(v, outcome)]
+                before = [x + y for x in before for y in implied(v, not outcome)]
+            return alts
+        return [[]]
+
+    def split(s: _IterState, test, then, orelse) -> List[_IterState]:
+        out = []
+        for outcome, branch in ((True, then), (False, orelse)):
+            for alt in ([[]] if s.rebound else implied(test, outcome)):
+                s2 = s.clone()
+                for kind, keys in alt:
+                    s2 = s2.constrain(kind, keys)
+                    if s2 is None:
+                        break
+                if s2 is not None:
+                    out += branch(s2)
+        return out
+
+    def add_value(s: _IterState, val) -> List[_IterState]:
+        if isinstance(val, ast.IfExp):
+            return split(s, val.test, lambda x: add_value(x, val.body), lambda x: add_value(x, val.orelse))
+        return [s.clone(count=s.count + 1, values=s.values + ((val, s.rebound),))]
+
+    def walk(stmts, states: List[_IterState]) -> List[_IterState]:
+        for st in stmts:
+            new: List[_IterState] = []
+            for s in states:
+                if s.done:
+                    new.append(s)
+                elif isinstance(st, ast.If):
+                    new += split(s, st.test, lambda x: walk(st.body, [x]), lambda x: walk(st.orelse, [x]))
+                elif isinstance(st, ast.Continue):
+                    new.append(s.clone(done=True))
+                elif isinstance(st, ast.Raise):
+                    pass                        # the iteration does not complete on this path
+                elif isinstance(st, (ast.Break, ast.Return)):
+                    raise AnalysisError(f"{rid}: {f.qual}: `{norm(st)}` leaves the value-collecting loop early (unrecognised)")
+                elif isinstance(st, (ast.For, ast.AsyncFor, ast.While)):
+                    if touches(st):
+                        problems.append(f"values are appended inside a nested `{norm(st)}`")
+                    new.append(s.clone(rebound=s.rebound or a in _names_bound_in(st)))
+                elif isinstance(st, (ast.Try, ast.With, ast.AsyncWith, ast.Match)):
+                    if touches(st):
+                        raise AnalysisError(f"{rid}: {f.qual}: values are appended inside `{norm(st)}` (unrecognised)")
+                    new.append(s.clone(rebound=s.rebound or a in _names_bound_in(st)))
+                elif isinstance(st, ast.Expr) and isinstance(st.value, ast.IfExp):
+                    # `V.append(x) if c else None` as a statement
+                    ie = st.value
+                    new += split(s, ie.test, lambda x: walk([ast.Expr(value=ie.body)], [x]), lambda x: walk([ast.Expr(value=ie.orelse)], [x]))
+                else:
+                    cur = [s]
+                    calls = [c for c in ast.walk(st) if v_call(c)]
+                    for c in calls:
+                        if not (isinstance(st, ast.Expr) and st.value is c) and _conditionally_evaluated(c, st):
+                            raise AnalysisError(f"{rid}: {f.qual}: `{ast.unparse(c)}` is evaluated conditionally inside `{norm(st)}` (unrecognised)")
+                        if c.func.attr in ("copy", "index", "count"):
+                            continue
+                        if c.func.attr == "append" and len(c.args) == 1:
+                            cur = [s3 for s2 in cur for s3 in add_value(s2, c.args[0])]
+                        elif c.func.attr == "extend" and len(c.args) == 1 and isinstance(c.args[0], (ast.List, ast.Tuple)) \
+                                and not any(isinstance(x, ast.Starred) for x in c.args[0].elts):
+                            for x in c.args[0].elts:
+                                cur = [s3 for s2 in cur for s3 in add_value(s2, x)]
+                        else:
+                            raise AnalysisError(f"{rid}: {f.qual}: `{ast.unparse(c)}` inside the value-collecting loop (unrecognised)")
+                    if isinstance(st, ast.AugAssign) and isinstance(st.target, ast.Name) and st.target.id in vnames:
+                        if isinstance(st.op, ast.Add) and isinstance(st.value, (ast.List, ast.Tuple)) \
+                                and not any(isinstance(x, ast.Starred) for x in st.value.elts):
+                            for x in st.value.elts:
+                                cur = [s3 for s2 in cur for s3 in add_value(s2, x)]
+                        else:
+                            raise AnalysisError(f"{rid}: {f.qual}: `{norm(st)}` inside the value-collecting loop (unrecognised)")
+                    rb = a in target_names_of_stmt(st)
+                    new += [s2.clone(rebound=s2.rebound or rb) for s2 in cur]
+            states = new
+        return states
+    return walk(it.body, [_IterState()])
+
+
+def _conditionally_evaluated(node: ast.AST, within: ast.AST) -> bool:
+    """Is `node` inside a conditional expression, a short-circuit operand, a comprehension or a lambda of statement `within`?"""
+    child, p = node, parent(node)
+    while p is not None and child is not within:
+        if isinstance(p, (ast.IfExp, ast.Lambda, ast.ListComp, ast.SetComp, ast.DictComp, ast.GeneratorExp)):
+            return True
+        if isinstance(p, ast.BoolOp) and p.values and p.values[0] is not child:
+            return True
+        child, p = p, parent(p)
+    return False
+
+
+def _names_bound_in(st: ast.AST) -> Set[str]:
+    out: Set[str] = set()
+    for n in ast.walk(st):
+        if isinstance(n, ast.Name) and isinstance(n.ctx, (ast.Store, ast.Del)):
+            out.add(n.id)
+    return out
+
+
+def _conjuncts(ctx, f, e: Optional[ast.AST]) -> Optional[Set[str]]:
+    """The condition as a set of conjunct texts, local single-definition aliases inlined (`a and b` == `b and a`)."""
+    if e is None:
+        return None
+    try:
+        from engine.util import inline_locals
+        e = inline_locals(ctx, f, e)
+    except Exception:
+        pass
+    parts = []
+
+    def rec(x):
+        if isinstance(x, ast.BoolOp) and isinstance(x.op, ast.And):
+            for v in x.values:
+                rec(v)
+        elif isinstance(x, ast.Call) and isinstance(x.func, ast.Name) and x.func.id == "bool" and len(x.args) == 1:
+            rec(x.args[0])
+        else:
+            parts.append(ast.unparse(x))
+    rec(e)
+    return set(parts)
 
 
 def _head_prefix_contract(ctx, rid):
-    """Every generate_func_head implementation returns ['t', state_var] (+ ['hist'] iff add_hist_func) + parameters."""
+    """Every generate_func_head implementation returns ['t', <state_var>] (+ ['hist'] iff add_hist_func) + parameters.
+
+    Decided by abstract execution of every path of the implementation (see _c01_util.list_shapes): the known leading
+    entries of the returned list and the truth value of the flags branched on.  Private helpers are looked through."""
     base = ctx.repo.get_class("pyrates/backend/base/base_backend.py", "BaseBackend")
     impls = []
     for c in ctx.repo.subclasses(base):
@@ -833,41 +1379,59 @@ def _head_prefix_contract(ctx, rid):
     out = []
     for m in impls:
         rets = [n for n in walk_shallow(m.node) if isinstance(n, ast.Return)]
-        if len(rets) != 1 or not isinstance(rets[0].value, ast.Name):
+        if not rets:
             raise AnalysisError(f"{rid}: {m.qual}: unrecognised return")
-        r = rets[0]
-        defs = ctx.rd(m).defs_reaching(r.value)
-        vals = [assigned_value(d, r.value.id) for d in defs]
-        if len(vals) != 1 or vals[0] is None:
-            raise AnalysisError(f"{rid}: {m.qual}: returned list has several definitions")
-        v = vals[0]
-        # delegation to the parent implementation
-        if isinstance(v, ast.Call) and call_name(v) == "generate_func_head" and isinstance(v.func, ast.Attribute) \
-                and isinstance(v.func.value, ast.Call) and isinstance(v.func.value.func, ast.Name) and v.func.value.func.id == "super":
+        r = rets[-1]
+        for p in ("state_var", "add_hist_func"):
+            if p not in m.params:
+                raise AnalysisError(f"{rid}: {m.qual}: parameter `{p}` vanished (signature changed)")
+        results = list_shapes(ctx, m)
+        if not results:
+            raise AnalysisError(f"{rid}: {m.qual}: no returning path")
+        if all(isinstance(v, Delegate) for _f, v, _s in results):
             out.append((m, r, True, "delegates to the parent implementation"))
             continue
-        ok = False
-        why = f"returned list is `{ast.unparse(v)}`"
-        if isinstance(v, ast.BinOp) and isinstance(v.op, ast.Add) and isinstance(v.left, ast.Name):
-            pre = v.left
-            pdefs = [d for d in ctx.rd(m).defs_reaching_at(defs[0], pre.id)]
-            pvals = [assigned_value(d, pre.id) for d in pdefs]
-            lit = [pv for pv in pvals if isinstance(pv, ast.List)]
-            if len(lit) == 1 and len(pvals) == 1 and len(lit[0].elts) == 2 and isinstance(lit[0].elts[0], ast.Constant) \
-                    and lit[0].elts[0].value == "t" and isinstance(lit[0].elts[1], ast.Name) and lit[0].elts[1].id == "state_var":
-                # the only mutation of the prefix: `if add_hist_func: prefix.append('hist')`
-                muts = [c for c in walk_shallow(m.node) if isinstance(c, ast.Call) and isinstance(c.func, ast.Attribute)
-                        and isinstance(c.func.value, ast.Name) and c.func.value.id == pre.id
-                        and c.func.attr in ("append", "extend", "insert", "pop", "remove", "sort", "reverse")]
-                good_mut = len(muts) == 1 and muts[0].func.attr == "append" and len(muts[0].args) == 1 \
-                    and isinstance(muts[0].args[0], ast.Constant) and muts[0].args[0].value == "hist"
-                if good_mut:
-                    g = parent(stmt_of(ctx.cfg(m), muts[0]))
-                    good_mut = isinstance(g, ast.If) and isinstance(g.test, ast.Name) and g.test.id == "add_hist_func"
-                ok = good_mut
-                why = "prefix ['t', state_var] (+ 'hist' iff add_hist_func) followed by the parameters" if ok else \
-                    "the prefix list is modified in an unrecognised way"
-        out.append((m, r, ok, why))
+        verdicts = []           # (has_hist, flag_fact)
+        problems = []
+        for facts, v, store in results:
+            if isinstance(v, Delegate):
+                continue
+            if not isinstance(v, LVal) or v.bad:
+                raise AnalysisError(f"{rid}: {m.qual}: the returned argument-name list is built in an unrecognised way ({v!r})")
+            k = v.elems
+            if len(k) < 2:
+                raise AnalysisError(f"{rid}: {m.qual}: the two leading entries of the returned list are not statically known ({v!r})")
+            if not k[0].is_const and k[0].key not in m.params:
+                raise AnalysisError(f"{rid}: {m.qual}: the first entry of the returned list is not a literal ({v!r})")
+            if not (k[0].is_const and k[0].const == "t"):
+                problems.append(f"the first entry is {k[0]!r}, expected 't'")
+            if k[1].key != "state_var":
+                if k[1].is_const or k[1].key in m.params or any(e.key == "state_var" for e in k):
+                    problems.append(f"the second entry is {k[1]!r}, expected the state-vector name `state_var`")
+                else:
+                    raise AnalysisError(f"{rid}: {m.qual}: the second entry of the returned list is not recognised ({v!r})")
+            hist_pos = [i for i, e in enumerate(k) if e.is_const and e.const == "hist"]
+            if hist_pos and hist_pos != [2]:
+                problems.append(f"'hist' is entry {hist_pos} of the returned list, expected entry 2")
+            flag = store.get("add_hist_func")
+            if not isinstance(flag, Scalar):
+                raise AnalysisError(f"{rid}: {m.qual}: `add_hist_func` is re-bound to a list (unrecognised)")
+            verdicts.append((bool(hist_pos), facts.get(flag.key) if not flag.is_const else bool(flag.const), repr(v)))
+        undecided = [x for x in verdicts if x[1] is None]
+        if undecided:
+            if len({h for h, _f, _v in verdicts}) == 1:
+                problems.append(f"'hist' is {'always' if verdicts[0][0] else 'never'} part of the returned list, whatever add_hist_func says")
+            else:
+                raise AnalysisError(f"{rid}: {m.qual}: whether 'hist' is part of the returned list is not decided by a recognised test "
+                                    f"of add_hist_func ({undecided[0][2]})")
+        for has_hist, fact, txt in verdicts:
+            if fact is not None and has_hist != fact:
+                problems.append(f"with add_hist_func {'true' if fact else 'false'} the returned list is {txt}")
+        problems = sorted(set(problems))
+        if problems:
+            out.append((m, r, False, "; ".join(problems)))
+        else:
+            out.append((m, r, True, "prefix ['t', state_var] (+ 'hist' iff add_hist_func) followed by the parameters"))
     return out
 
 
@@ -880,68 +1444,60 @@ def r6_names_and_values_from_one_iteration(ctx, rid):
         else:
             ctx.violation(rid, m, r, f"generate_func_head must return ['t', state_var(, 'hist')] + parameter names in that order "
                                      f"(callers seed / slice the leading entries by position): {why}", label="head prefix contract")
+    base_head = get_method(ctx, ctx.repo.get_class("pyrates/backend/base/base_backend.py", "BaseBackend"), "generate_func_head")
+    HIST = repr("hist")
     for fname in ("to_func", "get_jacobian_func"):
         f = get_method(ctx, cls, fname)
         selfn = f.self_name
         cfg = ctx.cfg(f)
         ret, v_e, n_e = _return_pair(ctx, f, rid)
-        v0, n0 = strip_wrappers(v_e), strip_wrappers(n_e)
-        # ---- names: must be the bare list
-        if not isinstance(n0, ast.Name):
-            reordering = any(isinstance(c, ast.Call) and call_name(c) in REORDER for c in ast.walk(n_e)) or \
-                any(isinstance(s, ast.Subscript) for s in ast.walk(n_e))
-            if reordering:
+        # ---- names: the list returned by generate_func_head, possibly re-packaged in the same order
+        nroot = _copy_root(ctx, f, n_e)
+        head_call = nroot.value if isinstance(nroot.expr, ast.Name) else nroot.expr
+        if not (isinstance(head_call, ast.Call) and call_name(head_call) == "generate_func_head"):
+            shown = head_call if head_call is not None else n_e
+            if _reorders(n_e) or (head_call is not None and _reorders(head_call)):
                 ctx.violation(rid, f, ret, f"the returned argument names `{ast.unparse(n_e)}` are a re-ordered / re-sliced copy of the "
-                                           f"list the values were collected from: value k no longer belongs to name k",
+                                           f"list the values were collected from (`{ast.unparse(shown)}`): value k no longer belongs to name k",
                               label="returned names")
                 continue
+            if isinstance(nroot.expr, ast.Name):
+                raise AnalysisError(f"{rid}: {f.qual}: the returned name list `{nroot.expr.id}` is not (only) the result of generate_func_head")
             raise AnalysisError(f"{rid}: {f.qual}: returned names `{ast.unparse(n_e)}` have an unrecognised form")
-        if not isinstance(v0, ast.Name):
-            raise AnalysisError(f"{rid}: {f.qual}: returned values `{ast.unparse(v_e)}` have an unrecognised form")
-        N, V = n0.id, v0.id
-        ndefs = ctx.rd(f).defs_reaching(n0)
-        nvals = [assigned_value(d, N) for d in ndefs]
-        if len(ndefs) != 1 or not (isinstance(nvals[0], ast.Call) and call_name(nvals[0]) == "generate_func_head"):
-            raise AnalysisError(f"{rid}: {f.qual}: the returned name list `{N}` is not (only) the result of generate_func_head")
-        head_call, ndef = nvals[0], ndefs[0]
-        # ---- values: one init, appends only
-        vdefs = ctx.rd(f).defs_reaching(v0)
-        vvals = [assigned_value(d, V) for d in vdefs]
-        if len(vdefs) != 1 or not isinstance(vvals[0], ast.List):
-            raise AnalysisError(f"{rid}: {f.qual}: the value list `{V}` is not initialised by one list literal")
-        vinit, seeds = vdefs[0], vvals[0].elts
-        muts = [c for c in walk_shallow(f.node) if isinstance(c, ast.Call) and isinstance(c.func, ast.Attribute)
-                and isinstance(c.func.value, ast.Name) and c.func.value.id == V
-                and any(d is vinit for d in ctx.rd(f).defs_reaching(c.func.value))]
-        other = [c for c in muts if c.func.attr not in APPENDERS and c.func.attr not in ("copy", "index", "count")]
-        if other:
-            raise AnalysisError(f"{rid}: {f.qual}: value list `{V}` is modified by `{ast.unparse(other[0])}` (unrecognised)")
-        appends = [c for c in muts if c.func.attr in APPENDERS]
-        loops = []
-        for c in appends:
-            l = next((a for a in _anc(c) if isinstance(a, ast.For)), None)
-            if l is not None and l not in loops:
-                loops.append(l)
-        pre_appends = [c for c in appends if not any(isinstance(a, ast.For) for a in _anc(c))]
-        if len(loops) != 1:
-            raise AnalysisError(f"{rid}: {f.qual}: values are collected in {len(loops)} loops (expected one)")
-        L = loops[0]
-        facts = {"names": N, "values": V, "loop": norm(L), "seeds": [ast.unparse(s) for s in seeds],
+        if not isinstance(nroot.expr, ast.Name):
+            raise AnalysisError(f"{rid}: {f.qual}: returned names `{ast.unparse(n_e)}` have an unrecognised form")
+        N, ndef, n_names = nroot.expr.id, nroot.defstmt, set(nroot.names)
+        # ---- values: seeds, then one pass over a list
+        segs, v_names, vinit = _value_segments(ctx, f, rid, v_e)
+        V = v_names[0] if v_names else "⟨values⟩"
+        iters = [p for k, p in segs if k == "iter"]
+        if len(iters) != 1:
+            raise AnalysisError(f"{rid}: {f.qual}: values are collected in {len(iters)} loops (expected one)")
+        if segs[-1][0] != "iter":
+            raise AnalysisError(f"{rid}: {f.qual}: values are added to `{V}` after the pass over the names (unrecognised)")
+        it = iters[0]
+        L = it.stmt
+        seeds_all = [p for k, p in segs if k == "seed"]
+        seeds = [x for x, cond, _st in seeds_all if cond is None]
+        cond_seeds = [(x, cond, st) for x, cond, st in seeds_all if cond is not None]
+        facts = {"names": N, "values": V, "loop": norm(it.node), "seeds": [ast.unparse(s) for s in seeds],
                  "names_from": norm(ndef)}
-        # ---- the loop iterates the returned name list itself
-        it = L.iter
-        same = isinstance(it, ast.Name) and it.id == N and [d for d in ctx.rd(f).defs_reaching(it)] == [ndef]
+        # ---- the pass iterates the returned name list itself
+        iroot = _copy_root(ctx, f, it.it)
+        same = isinstance(iroot.expr, ast.Name) and iroot.defstmt is ndef
         if not same:
-            ctx.violation(rid, f, L, f"the argument values are collected by `{norm(L)}` but the names returned to the user are `{N}` "
+            ctx.violation(rid, f, L, f"the argument values are collected by `{norm(it.node)}` but the names returned to the user are `{N}` "
                                      f"(= {norm(ndef)}): values and names do not come from one iteration of one list, so value k "
                                      f"need not belong to name k", facts, label="one list for names and values")
             continue
+        n_names |= set(iroot.names)
         # no mutation / re-binding of N between its definition and the return
         nm_muts = [n for n in walk_shallow(f.node)
                    if (isinstance(n, ast.Call) and isinstance(n.func, ast.Attribute) and isinstance(n.func.value, ast.Name)
-                       and n.func.value.id == N and n.func.attr in ("sort", "reverse", "pop", "insert", "append", "remove", "extend", "clear"))
-                   or (isinstance(n, ast.Subscript) and isinstance(n.value, ast.Name) and n.value.id == N and isinstance(n.ctx, (ast.Store, ast.Del)))]
-        nm_muts = [n for n in nm_muts if any(d is ndef for d in ctx.rd(f).defs_reaching_at(stmt_of(cfg, n), N))]
+                       and n.func.value.id in n_names and n.func.attr in ("sort", "reverse", "pop", "insert", "append", "remove", "extend", "clear"))
+                   or (isinstance(n, ast.Subscript) and isinstance(n.value, ast.Name) and n.value.id in n_names and isinstance(n.ctx, (ast.Store, ast.Del)))
+                   or (isinstance(n, ast.AugAssign) and isinstance(n.target, ast.Name) and n.target.id in n_names)]
+        nm_muts = [n for n in nm_muts if cfg.reachable_after(ndef, stmt_of(cfg, n))]
         if nm_muts:
             ctx.violation(rid, f, stmt_of(cfg, nm_muts[0]), f"the name list `{N}` is modified in place (`{norm(stmt_of(cfg, nm_muts[0]))}`) "
                                                             f"although values are paired with it by position", facts,
@@ -950,34 +1506,59 @@ def r6_names_and_values_from_one_iteration(ctx, rid):
         ctx.ok(rid, f, L, f"values are collected while iterating the very list `{N}` that is returned as the names", facts,
                label="one list for names and values")
         # ---- per iteration: exactly one value, get_var(<that name>); skipped names = seeded prefix
-        tgt = L.target
-        if not isinstance(tgt, ast.Name):
-            raise AnalysisError(f"{rid}: {f.qual}: loop target of `{norm(L)}` is not a single name")
-        a = tgt.id
-        skip: Optional[List[ast.AST]] = None
-        body = L.body
-        if len(body) == 1 and isinstance(body[0], ast.If) and not body[0].orelse and isinstance(body[0].test, ast.Compare) \
-                and len(body[0].test.ops) == 1 and isinstance(body[0].test.ops[0], ast.NotIn) and isinstance(body[0].test.left, ast.Name) \
-                and body[0].test.left.id == a and isinstance(body[0].test.comparators[0], (ast.Tuple, ast.List, ast.Set)):
-            skip = list(body[0].test.comparators[0].elts)
-            body = body[0].body
-        problems = _one_value_per_name(ctx, f, L, body, a, V, selfn)
+        if not isinstance(it.target, ast.Name):
+            raise AnalysisError(f"{rid}: {f.qual}: loop target of `{norm(it.node)}` is not a single name")
+        a = it.target.id
+        problems: List[str] = []
+        outcomes = _iteration_outcomes(ctx, f, rid, it, a, v_names or [V], problems)
+
+        def is_get(val, rebound) -> bool:
+            if rebound or not (isinstance(val, ast.Call) and call_name(val) == "get_var" and isinstance(val.func, ast.Attribute)
+                               and isinstance(val.func.value, ast.Name) and val.func.value.id == selfn):
+                return False
+            first = val.args[0] if val.args else next((k.value for k in val.keywords if k.arg == "var"), None)
+            return isinstance(first, ast.Name) and first.id == a
+        by_name: Dict[str, List[_IterState]] = {}
+        for s in outcomes:
+            if s.pos is None:
+                if s.count != 1:
+                    problems.append(f"a path through one iteration appends {s.count} values")
+                for val, rb in s.values:
+                    if not is_get(val, rb):
+                        problems.append(f"`{V}.append({ast.unparse(val)})` does not append {selfn}.get_var({a}, …) of the iteration's own name")
+            else:
+                for key in s.pos:
+                    by_name.setdefault(key, []).append(s)
+        skipped: List[str] = []
+        for key, ss in sorted(by_name.items()):
+            counts = {s.count for s in ss}
+            if counts == {0}:
+                skipped.append(key)
+                continue
+            if counts != {1}:
+                problems.append(f"for the name {key} a path through one iteration appends {sorted(counts)} values")
+                continue
+            if key == HIST:
+                continue        # the history callable is not a graph variable: its value is whatever the branch provides
+            for s in ss:
+                for val, rb in s.values:
+                    if not is_get(val, rb):
+                        problems.append(f"`{V}.append({ast.unparse(val)})` does not append {selfn}.get_var({a}, …) of the iteration's own name")
         # ---- seeded prefix
-        hist_kw = next((k.value for k in head_call.keywords if k.arg == "add_hist_func"), None)
-        sv_kw = next((k.value for k in head_call.keywords if k.arg == "state_var"), None)
-        if skip is None:
-            if seeds or pre_appends:
-                problems.append(f"the value list is seeded with {len(seeds) + len(pre_appends)} entries although no name is skipped in the loop")
+        bound = _bind_args(base_head, head_call)
+        hist_kw, sv_kw = bound.get("add_hist_func"), bound.get("state_var")
+        sv_key = _elem_key(ctx, f, sv_kw) if sv_kw is not None else None
+        if not skipped:
+            if seeds_all:
+                problems.append(f"the value list is seeded with {len(seeds_all)} entries although no name is skipped in the loop")
         else:
-            want = [("t", None)]
-            if len(skip) < 2:
+            if len(skipped) < 2:
                 problems.append("fewer than two names are skipped although two values (time, state vector) are seeded")
-            skipped_txt = [ast.unparse(s) for s in skip]
-            if not (isinstance(skip[0], ast.Constant) and skip[0].value == "t"):
-                problems.append(f"the first skipped name is `{skipped_txt[0]}`, expected 't'")
-            if sv_kw is None or len(skip) < 2 or ast.unparse(skip[1]) != ast.unparse(sv_kw):
-                problems.append(f"the second skipped name `{skipped_txt[1] if len(skip) > 1 else None}` is not the state-vector key handed to "
-                                f"generate_func_head (`{ast.unparse(sv_kw) if sv_kw is not None else None}`)")
+            if repr("t") not in skipped:
+                problems.append(f"the time variable 't' is not among the skipped names {skipped}")
+            if sv_key is None or sv_key not in skipped:
+                problems.append(f"the state-vector key handed to generate_func_head (`{ast.unparse(sv_kw) if sv_kw is not None else None}`) is "
+                                f"not among the skipped names {skipped}")
             if len(seeds) != 2:
                 problems.append(f"{len(seeds)} seeded values for the two leading names t and state vector")
             else:
@@ -987,24 +1568,24 @@ def r6_names_and_values_from_one_iteration(ctx, rid):
                 if sv_src is None or sv_src not in load_ids(seeds[1]):
                     problems.append(f"the second seeded value `{ast.unparse(seeds[1])}` is not the state vector `{sv_src}` stored under the "
                                     f"state-vector key")
-            has_hist_skip = any(isinstance(s, ast.Constant) and s.value == "hist" for s in skip[2:])
-            if len(skip) > 3 or (len(skip) == 3 and not has_hist_skip):
-                problems.append(f"names {skipped_txt[2:]} are skipped without a seeded value")
-            hist_appends = [c for c in pre_appends]
-            if has_hist_skip:
-                if len(hist_appends) != 1:
-                    problems.append(f"'hist' is skipped in the loop but {len(hist_appends)} conditional values are seeded for it")
+            extra = [k for k in skipped if k not in (repr("t"), sv_key, HIST)]
+            if extra:
+                problems.append(f"names {extra} are skipped without a seeded value")
+            if HIST in skipped:
+                if len(cond_seeds) != 1:
+                    problems.append(f"'hist' is skipped in the loop but {len(cond_seeds)} conditional values are seeded for it")
                 else:
-                    g = parent(stmt_of(cfg, hist_appends[0]))
-                    if not (isinstance(g, ast.If) and hist_kw is not None and ast.unparse(g.test) == ast.unparse(hist_kw)):
-                        problems.append(f"the history callable is seeded under `{norm(g) if isinstance(g, ast.If) else '(no condition)'}` but "
+                    _x, cond, cst = cond_seeds[0]
+                    if hist_kw is None or _conjuncts(ctx, f, cond) != _conjuncts(ctx, f, hist_kw):
+                        problems.append(f"the history callable is seeded under `{ast.unparse(cond)}` but "
                                         f"'hist' is in the name list iff `{ast.unparse(hist_kw) if hist_kw is not None else None}`")
-                    elif not (cfg.dominates(vinit, stmt_of(cfg, hist_appends[0])) and cfg.dominates(stmt_of(cfg, hist_appends[0]), L)) \
-                            and not cfg.dominates(g, L):
+                    elif [k for k, _p in segs].index("iter") < len(segs) - 1 or \
+                            [p for k, p in segs if k == "seed"].index(cond_seeds[0]) != 2:
                         problems.append("the history callable is not seeded between the two leading values and the parameters")
-            elif hist_appends:
+            elif cond_seeds:
                 problems.append("a value is appended before the loop although its name is not skipped in the loop")
-        facts2 = dict(facts, skipped=[ast.unparse(s) for s in skip] if skip is not None else [])
+        facts2 = dict(facts, skipped=sorted(skipped))
+        problems = sorted(set(problems))
         if problems:
             ctx.violation(rid, f, L, f"values and names are paired by position, but: {'; '.join(problems)} — a returned value would be "
                                      f"filed under another variable's name", facts2, label="one value per name")
@@ -1019,60 +1600,15 @@ def _state_vec_source(ctx, f, sv_kw) -> Optional[str]:
     if not isinstance(sv_kw, ast.Name):
         return None
     for d in ctx.rd(f).defs_reaching(sv_kw):
-        if isinstance(d, ast.Assign) and isinstance(d.value, ast.Call) and call_name(d.value) == "add_var":
-            v = next((k.value for k in d.value.keywords if k.arg == "value"), None)
-            if isinstance(v, ast.Name):
-                return v.id
+        v = d.value if isinstance(d, ast.Assign) else None
+        if isinstance(v, ast.Name):
+            r = alias_root(ctx, f, v, wrappers=())
+            d, v = (r.defstmt, r.defstmt.value) if isinstance(r.defstmt, ast.Assign) else (d, v)
+        if isinstance(d, ast.Assign) and isinstance(v, ast.Call) and call_name(v) == "add_var":
+            val = next((k.value for k in v.keywords if k.arg == "value"), None)
+            if isinstance(val, ast.Name):
+                return val.id
     return None
-
-
-def _one_value_per_name(ctx, f, L, body, a: str, V: str, selfn: str) -> List[str]:
-    """Every path through one iteration of the loop body appends exactly one value to V; on paths where the loop target
-    has not been re-bound the value is self.get_var(<target>, ...)."""
-    problems: List[str] = []
-
-    def walk(stmts, rebound: bool) -> List[Tuple[int, bool]]:
-        """returns list of (appends, rebound) outcomes per path"""
-        outcomes = [(0, rebound)]
-        for st in stmts:
-            new = []
-            for cnt, rb in outcomes:
-                if isinstance(st, ast.If):
-                    # `if <name> == 'hist':` — the history callable is not a graph variable; its value is whatever the
-                    # branch provides (treated like a re-bound target: only the count is checked there)
-                    is_hist = isinstance(st.test, ast.Compare) and len(st.test.ops) == 1 and isinstance(st.test.ops[0], ast.Eq) \
-                        and isinstance(st.test.left, ast.Name) and st.test.left.id == a \
-                        and isinstance(st.test.comparators[0], ast.Constant) and st.test.comparators[0].value == "hist"
-                    for branch, exempt in ((st.body, is_hist), (st.orelse, False)):
-                        for c2, rb2 in walk(branch, rb or exempt):
-                            new.append((cnt + c2, rb2 and not exempt or rb))
-                elif isinstance(st, (ast.For, ast.While, ast.Try, ast.With)):
-                    if any(isinstance(c, ast.Call) and isinstance(c.func, ast.Attribute) and isinstance(c.func.value, ast.Name)
-                           and c.func.value.id == V for c in ast.walk(st)):
-                        problems.append(f"values are appended inside a nested `{norm(st)}`")
-                    new.append((cnt, rb))
-                else:
-                    rb2 = rb or (a in target_names_of_stmt(st))
-                    c2 = 0
-                    for c in [n for n in ast.walk(st) if isinstance(n, ast.Call)]:
-                        if isinstance(c.func, ast.Attribute) and isinstance(c.func.value, ast.Name) and c.func.value.id == V \
-                                and c.func.attr in APPENDERS:
-                            c2 += 1
-                            val = c.args[0] if c.args else None
-                            if not rb2:
-                                is_get = isinstance(val, ast.Call) and call_name(val) == "get_var" and isinstance(val.func, ast.Attribute) \
-                                    and isinstance(val.func.value, ast.Name) and val.func.value.id == selfn and val.args \
-                                    and isinstance(val.args[0], ast.Name) and val.args[0].id == a
-                                if not is_get:
-                                    problems.append(f"`{ast.unparse(c)}` does not append {selfn}.get_var({a}, …) of the iteration's own name")
-                    new.append((cnt + c2, rb2))
-            outcomes = new
-        return outcomes
-    for cnt, _rb in walk(body, False):
-        if cnt != 1:
-            problems.append(f"a path through one iteration appends {cnt} values")
-            break
-    return sorted(set(problems))
 
 
 def target_names_of_stmt(st) -> List[str]:
@@ -1180,12 +1716,28 @@ def r9_indexed_assignment_defines_its_first_argument(ctx, rid):
     `var` are then emitted before the edge input is written."""
     import ast as _ast
     f = ctx.repo.get_func("pyrates/backend/computegraph.py", "ComputeGraph._sort_var_updates")
-    appends = [c for c in walk_shallow(f.node) if isinstance(c, _ast.Call) and call_name(c) == "append" and isinstance(c.func, _ast.Attribute)
-               and isinstance(c.func.value, _ast.Name) and c.func.value.id == "node_names"]
-    if len(appends) != 2:
-        raise AnalysisError(f"{rid}: expected two registrations into node_names in _sort_var_updates, found {len(appends)}")
+    # the registration list, by role: inside a loop over the equations (the function's first parameter) one local list receives,
+    # per equation, either the loop's own key (the equation defines that variable) or something else (lhs-indexing operation)
+    first_param = next((p for p in f.params if p != f.self_name), None)
+    by_list: Dict[str, List[tuple]] = {}
+    for L in [n for n in walk_shallow(f.node) if isinstance(n, _ast.For)]:
+        it = strip_wrappers(L.iter, ("list", "tuple", "iter"))
+        if isinstance(it, _ast.Call) and isinstance(it.func, _ast.Attribute) and it.func.attr in ("keys", "copy") and not it.args:
+            it = it.func.value
+        if not (isinstance(it, _ast.Name) and it.id == first_param and isinstance(L.target, _ast.Name)):
+            continue
+        for c in walk_shallow(L):
+            if isinstance(c, _ast.Call) and call_name(c) == "append" and isinstance(c.func, _ast.Attribute) \
+                    and isinstance(c.func.value, _ast.Name) and len(c.args) == 1 and in_body(L, c):
+                by_list.setdefault(c.func.value.id, []).append((c, L.target.id))
+    cands = {nm: cs for nm, cs in by_list.items()
+             if len(cs) == 2 and sum(1 for c, t in cs if isinstance(c.args[0], _ast.Name) and c.args[0].id == t) == 1}
+    if len(cands) != 1:
+        raise AnalysisError(f"{rid}: expected one list with two registrations (the equation's own key / the variable an lhs-indexing "
+                            f"operation writes) in _sort_var_updates, found {len(cands)}")
+    (appends,) = cands.values()
     # the registration on the branch where the lhs node is an operation (not a ComputeVar)
-    op_branch = [c for c in appends if not (isinstance(c.args[0], _ast.Name) and c.args[0].id == "node")]
+    op_branch = [c for c, t in appends if not (isinstance(c.args[0], _ast.Name) and c.args[0].id == t)]
     if len(op_branch) != 1:
         raise AnalysisError(f"{rid}: the registration for lhs-indexing operations was not recognised")
     c = op_branch[0]
